@@ -1,0 +1,157 @@
+//go:build verif
+
+package s2
+
+// Hooks for the wire-format checks (C09 lossless encoding, C15 total decoding)
+// of the model-based verification harness in /verif.  Compiled only with the
+// "verif" build tag; add-only; no behaviour is added to the package.
+
+import (
+	"bytes"
+	"io"
+)
+
+// VerifXYZToFaceSiTi exposes xyzToFaceSiTi (cell-centre detection).
+func VerifXYZToFaceSiTi(p Point) (face int, si, ti uint32, level int) { return xyzToFaceSiTi(p) }
+
+// VerifFaceSiTiToXYZ exposes faceSiTiToXYZ (not normalised).
+func VerifFaceSiTiToXYZ(face int, si, ti uint32) Point { return faceSiTiToXYZ(face, si, ti) }
+
+// VerifLoopRaw builds a loop from its stored fields without any
+// normalisation, exactly as the compressed decoder does (bound recomputed).
+func VerifLoopRaw(pts []Point, originInside bool, depth int) *Loop {
+	l := &Loop{vertices: pts, index: NewShapeIndex()}
+	l.originInside = originInside
+	l.depth = depth
+	l.initBound()
+	l.originInside = originInside
+	l.depth = depth
+	if l.index == nil {
+		l.index = NewShapeIndex()
+	}
+	l.index.Add(l)
+	return l
+}
+
+// VerifPolygonRaw builds a polygon from loops whose depths are already set,
+// exactly as the compressed decoder does (no re-nesting).
+func VerifPolygonRaw(loops []*Loop) *Polygon {
+	p := &Polygon{loops: loops}
+	p.initLoopProperties()
+	return p
+}
+
+// VerifLoopFields is the stored state of a loop.
+type VerifLoopFields struct {
+	Vertices       []Point
+	OriginInside   bool
+	Depth          int
+	Bound          Rect
+	SubregionBound Rect
+	HasIndex       bool
+}
+
+// VerifLoopState returns the stored fields of a loop.
+func VerifLoopState(l *Loop) VerifLoopFields {
+	return VerifLoopFields{l.vertices, l.originInside, l.depth, l.bound, l.subregionBound, l.index != nil}
+}
+
+// VerifPolygonFields is the stored state of a polygon.
+type VerifPolygonFields struct {
+	NumLoops        int
+	HasHoles        bool
+	NumVertices     int
+	NumEdges        int
+	Bound           Rect
+	SubregionBound  Rect
+	CumulativeEdges []int
+	HasIndex        bool
+}
+
+// VerifPolygonState returns the stored fields of a polygon.
+func VerifPolygonState(p *Polygon) VerifPolygonFields {
+	return VerifPolygonFields{len(p.loops), p.hasHoles, p.numVertices, p.numEdges, p.bound, p.subregionBound,
+		append([]int(nil), p.cumulativeEdges...), p.index != nil}
+}
+
+// VerifPolygonEncodeLossless forces the lossless polygon format.
+func VerifPolygonEncodeLossless(p *Polygon, w io.Writer) error {
+	e := &encoder{w: w}
+	p.encodeLossless(e)
+	return e.err
+}
+
+// VerifPolygonEncodeCompressed forces the compressed polygon format at the
+// given snap level (vertices converted exactly as Polygon.encode does).
+func VerifPolygonEncodeCompressed(p *Polygon, w io.Writer, snapLevel int) error {
+	e := &encoder{w: w}
+	vs := make([]xyzFaceSiTi, 0, p.numVertices)
+	for _, l := range p.loops {
+		vs = append(vs, l.xyzFaceSiTiVertices()...)
+	}
+	p.encodeCompressed(e, snapLevel, vs)
+	return e.err
+}
+
+// VerifZigzagEncode exposes zigzagEncode.
+func VerifZigzagEncode(x int32) uint32 { return zigzagEncode(x) }
+
+// VerifZigzagDecode exposes zigzagDecode.
+func VerifZigzagDecode(x uint32) int32 { return zigzagDecode(x) }
+
+// VerifInterleave exposes interleaveUint32.
+func VerifInterleave(x, y uint32) uint64 { return interleaveUint32(x, y) }
+
+// VerifDeinterleave exposes deinterleaveUint32.
+func VerifDeinterleave(c uint64) (uint32, uint32) { return deinterleaveUint32(c) }
+
+// VerifDerivEncode runs a fresh order-n derivative coder over xs.
+func VerifDerivEncode(n int, xs []int32) []int32 {
+	c := newNthDerivativeCoder(n)
+	out := make([]int32, len(xs))
+	for i, x := range xs {
+		out[i] = c.encode(x)
+	}
+	return out
+}
+
+// VerifDerivDecode runs a fresh order-n derivative decoder over xs.
+func VerifDerivDecode(n int, xs []int32) []int32 {
+	c := newNthDerivativeCoder(n)
+	out := make([]int32, len(xs))
+	for i, x := range xs {
+		out[i] = c.decode(x)
+	}
+	return out
+}
+
+// VerifSiTiToPiQi exposes siTitoPiQi.
+func VerifSiTiToPiQi(siTi uint32, level int) uint32 { return siTitoPiQi(siTi, level) }
+
+// VerifEncodePointsCompressed encodes points with encodePointsCompressed; the
+// (face, si, ti, level) of each point are computed by xyzToFaceSiTi.
+func VerifEncodePointsCompressed(pts []Point, level int) ([]byte, error) {
+	var buf bytes.Buffer
+	e := &encoder{w: &buf}
+	vs := make([]xyzFaceSiTi, len(pts))
+	for i, p := range pts {
+		vs[i].xyz = p
+		vs[i].face, vs[i].si, vs[i].ti, vs[i].level = xyzToFaceSiTi(p)
+	}
+	encodePointsCompressed(e, vs, level)
+	return buf.Bytes(), e.err
+}
+
+// VerifDecodePointsCompressed decodes n points with decodePointsCompressed.
+func VerifDecodePointsCompressed(b []byte, level, n int) ([]Point, error) {
+	d := &decoder{r: asByteReader(bytes.NewReader(b))}
+	out := make([]Point, n)
+	decodePointsCompressed(d, level, out)
+	return out, d.err
+}
+
+// Documented limits of the count fields.
+const (
+	VerifMaxEncodedLoops    = maxEncodedLoops
+	VerifMaxEncodedVertices = maxEncodedVertices
+)
